@@ -92,15 +92,17 @@ pub struct ReplaySrc {
     pub pos: usize,
     pub fails: Vec<&'static str>,
     pub hits: Vec<&'static str>,
-    /// draws beyond the recording return zero (and are counted)
+    /// draws beyond the recording return zero (and are counted) ...
     pub underflow: usize,
+    /// ... or pseudo-random bytes when a seed is set (machinery self-test only)
+    pub rng: u64,
 }
 
 pub struct AssumeViolated;
 
 impl ReplaySrc {
     pub fn new(vals: Vec<Vec<u8>>) -> Self {
-        ReplaySrc { vals, pos: 0, fails: vec![], hits: vec![], underflow: 0 }
+        ReplaySrc { vals, pos: 0, fails: vec![], hits: vec![], underflow: 0, rng: 0 }
     }
     fn next(&mut self, n: usize) -> Vec<u8> {
         if self.pos < self.vals.len() {
@@ -112,7 +114,26 @@ impl ReplaySrc {
             v
         } else {
             self.underflow += 1;
-            vec![0; n]
+            if self.rng == 0 {
+                return vec![0; n];
+            }
+            let mut v = vec![0u8; n];
+            for x in v.iter_mut() {
+                self.rng ^= self.rng << 13;
+                self.rng ^= self.rng >> 7;
+                self.rng ^= self.rng << 17;
+                *x = (self.rng >> 24) as u8;
+            }
+            if n == 1 && (self.rng >> 40) & 1 == 1 {
+                // enum indices, small counts: small values half of the time
+                v[0] %= 6;
+            }
+            if n == 8 {
+                // sizes / lengths / offsets: keep them small so that range assumptions are met often
+                let small = (v[0] as usize | ((v[1] as usize) << 8)) % if (self.rng >> 41) & 1 == 1 { 9 } else { 300 };
+                v = (small as u64).to_le_bytes().to_vec();
+            }
+            v
         }
     }
 }
